@@ -27,6 +27,6 @@ theorem N3_C_TAU_JAUMANN__DTAU_DF (hc : c * c = 2) (h2 : (2:K) ≠ 0)
       = upper (lamTau F (M3.ofMandel c [s 0, s 1, s 2, s 3, s 4, s 5]) (M3.sym l00 l11 l22 l01 l02 l12) (M3.ofMandel c (act (rowsOf D i6 i9) (M3.tens3 ((M3.sym l00 l11 l22 l01 l02 l12) * F))))) := by
   have hc0 : c ≠ 0 := c_ne_zero hc h2
   obtain ⟨f00,f01,f02,f10,f11,f12,f20,f21,f22⟩ := F
-  c23_rat0 hc
+  c23_rat0c hc
 
 end TfelVerif.C23.PropsN3_C_TAU_JAUMANN__DTAU_DF
